@@ -13,7 +13,7 @@ Ltac step_cases Hs :=
   try discriminate; inversion Hs; subst; clear Hs;
   repeat match goal with
          | H : _ = (_, _) |- _ =>
-             unfold touch, rd_begin, rd_end, wr_begin, wr_end in H; cbv beta iota zeta in H; inversion H; subst; clear H
+             unfold touch, rd_begin, rd_end, wr_begin, wr_end, srd_begin, swr_begin in H; cbv beta iota zeta in H; inversion H; subst; clear H
          end.
 Ltac splits := repeat match goal with |- _ /\ _ => split end.
 Ltac destr_and := repeat match goal with H : _ /\ _ |- _ => destruct H end.
@@ -143,42 +143,42 @@ Lemma destroy_gph g v : gph (destroy g v) = gph g. Proof. reflexivity. Qed.
 #[export] Hint Rewrite destroy_gph : cow.
 Lemma destroy_glcl g v : glcl (destroy g v) = glcl g. Proof. reflexivity. Qed.
 #[export] Hint Rewrite destroy_glcl : cow.
-Lemma wr_assign_omtx g x v : omtx (wr_assign g x v) = omtx g. Proof. unfold wr_assign. rewrite decref_omtx. destruct x; reflexivity. Qed.
-#[export] Hint Rewrite wr_assign_omtx : cow.
-Lemma wr_assign_imtx g x v : imtx (wr_assign g x v) = imtx g. Proof. unfold wr_assign. rewrite decref_imtx. destruct x; reflexivity. Qed.
-#[export] Hint Rewrite wr_assign_imtx : cow.
-Lemma wr_assign_rl g x v : rl (wr_assign g x v) = rl g. Proof. unfold wr_assign. rewrite decref_rl. destruct x; reflexivity. Qed.
-#[export] Hint Rewrite wr_assign_rl : cow.
-Lemma wr_assign_cl g x v : cl (wr_assign g x v) = cl g. Proof. unfold wr_assign. rewrite decref_cl. destruct x; reflexivity. Qed.
-#[export] Hint Rewrite wr_assign_cl : cow.
-Lemma wr_assign_lc g x v : lc (wr_assign g x v) = lc g. Proof. unfold wr_assign. rewrite decref_lc. destruct x; reflexivity. Qed.
-#[export] Hint Rewrite wr_assign_lc : cow.
-Lemma wr_assign_rc g x v : rc (wr_assign g x v) = rc g. Proof. unfold wr_assign. rewrite decref_rc. destruct x; reflexivity. Qed.
-#[export] Hint Rewrite wr_assign_rc : cow.
-Lemma wr_assign_next g x v : next (wr_assign g x v) = next g. Proof. unfold wr_assign. rewrite decref_next. destruct x; reflexivity. Qed.
-#[export] Hint Rewrite wr_assign_next : cow.
-Lemma wr_assign_plan g x v : plan (wr_assign g x v) = plan g. Proof. unfold wr_assign. rewrite decref_plan. destruct x; reflexivity. Qed.
-#[export] Hint Rewrite wr_assign_plan : cow.
-Lemma wr_assign_calls g x v : calls (wr_assign g x v) = calls g. Proof. unfold wr_assign. rewrite decref_calls. destruct x; reflexivity. Qed.
-#[export] Hint Rewrite wr_assign_calls : cow.
-Lemma wr_assign_faults g x v : faults (wr_assign g x v) = faults g. Proof. unfold wr_assign. rewrite decref_faults. destruct x; reflexivity. Qed.
-#[export] Hint Rewrite wr_assign_faults : cow.
-Lemma wr_assign_created g x v : created (wr_assign g x v) = created g. Proof. unfold wr_assign. rewrite decref_created. destruct x; reflexivity. Qed.
-#[export] Hint Rewrite wr_assign_created : cow.
-Lemma wr_assign_committed g x v : committed (wr_assign g x v) = committed g. Proof. unfold wr_assign. rewrite decref_committed. destruct x; reflexivity. Qed.
-#[export] Hint Rewrite wr_assign_committed : cow.
-Lemma wr_assign_ncommit g x v : ncommit (wr_assign g x v) = ncommit g. Proof. unfold wr_assign. rewrite decref_ncommit. destruct x; reflexivity. Qed.
-#[export] Hint Rewrite wr_assign_ncommit : cow.
-Lemma wr_assign_nret g x v : nret (wr_assign g x v) = nret g. Proof. unfold wr_assign. rewrite decref_nret. destruct x; reflexivity. Qed.
-#[export] Hint Rewrite wr_assign_nret : cow.
-Lemma wr_assign_applied g x v : applied (wr_assign g x v) = applied g. Proof. unfold wr_assign. rewrite decref_applied. destruct x; reflexivity. Qed.
-#[export] Hint Rewrite wr_assign_applied : cow.
-Lemma wr_assign_initv g x v : initv (wr_assign g x v) = initv g. Proof. unfold wr_assign. rewrite decref_initv. destruct x; reflexivity. Qed.
-#[export] Hint Rewrite wr_assign_initv : cow.
-Lemma wr_assign_gph g x v : gph (wr_assign g x v) = gph g. Proof. unfold wr_assign. rewrite decref_gph. destruct x; reflexivity. Qed.
-#[export] Hint Rewrite wr_assign_gph : cow.
-Lemma wr_assign_glcl g x v : glcl (wr_assign g x v) = glcl g. Proof. unfold wr_assign. rewrite decref_glcl. destruct x; reflexivity. Qed.
-#[export] Hint Rewrite wr_assign_glcl : cow.
+Lemma sl_assign_omtx g x v : omtx (sl_assign g x v) = omtx g. Proof. unfold sl_assign. rewrite decref_omtx. destruct x; reflexivity. Qed.
+#[export] Hint Rewrite sl_assign_omtx : cow.
+Lemma sl_assign_imtx g x v : imtx (sl_assign g x v) = imtx g. Proof. unfold sl_assign. rewrite decref_imtx. destruct x; reflexivity. Qed.
+#[export] Hint Rewrite sl_assign_imtx : cow.
+Lemma sl_assign_rl g x v : rl (sl_assign g x v) = rl g. Proof. unfold sl_assign. rewrite decref_rl. destruct x; reflexivity. Qed.
+#[export] Hint Rewrite sl_assign_rl : cow.
+Lemma sl_assign_cl g x v : cl (sl_assign g x v) = cl g. Proof. unfold sl_assign. rewrite decref_cl. destruct x; reflexivity. Qed.
+#[export] Hint Rewrite sl_assign_cl : cow.
+Lemma sl_assign_lc g x v : lc (sl_assign g x v) = lc g. Proof. unfold sl_assign. rewrite decref_lc. destruct x; reflexivity. Qed.
+#[export] Hint Rewrite sl_assign_lc : cow.
+Lemma sl_assign_rc g x v : rc (sl_assign g x v) = rc g. Proof. unfold sl_assign. rewrite decref_rc. destruct x; reflexivity. Qed.
+#[export] Hint Rewrite sl_assign_rc : cow.
+Lemma sl_assign_next g x v : next (sl_assign g x v) = next g. Proof. unfold sl_assign. rewrite decref_next. destruct x; reflexivity. Qed.
+#[export] Hint Rewrite sl_assign_next : cow.
+Lemma sl_assign_plan g x v : plan (sl_assign g x v) = plan g. Proof. unfold sl_assign. rewrite decref_plan. destruct x; reflexivity. Qed.
+#[export] Hint Rewrite sl_assign_plan : cow.
+Lemma sl_assign_calls g x v : calls (sl_assign g x v) = calls g. Proof. unfold sl_assign. rewrite decref_calls. destruct x; reflexivity. Qed.
+#[export] Hint Rewrite sl_assign_calls : cow.
+Lemma sl_assign_faults g x v : faults (sl_assign g x v) = faults g. Proof. unfold sl_assign. rewrite decref_faults. destruct x; reflexivity. Qed.
+#[export] Hint Rewrite sl_assign_faults : cow.
+Lemma sl_assign_created g x v : created (sl_assign g x v) = created g. Proof. unfold sl_assign. rewrite decref_created. destruct x; reflexivity. Qed.
+#[export] Hint Rewrite sl_assign_created : cow.
+Lemma sl_assign_committed g x v : committed (sl_assign g x v) = committed g. Proof. unfold sl_assign. rewrite decref_committed. destruct x; reflexivity. Qed.
+#[export] Hint Rewrite sl_assign_committed : cow.
+Lemma sl_assign_ncommit g x v : ncommit (sl_assign g x v) = ncommit g. Proof. unfold sl_assign. rewrite decref_ncommit. destruct x; reflexivity. Qed.
+#[export] Hint Rewrite sl_assign_ncommit : cow.
+Lemma sl_assign_nret g x v : nret (sl_assign g x v) = nret g. Proof. unfold sl_assign. rewrite decref_nret. destruct x; reflexivity. Qed.
+#[export] Hint Rewrite sl_assign_nret : cow.
+Lemma sl_assign_applied g x v : applied (sl_assign g x v) = applied g. Proof. unfold sl_assign. rewrite decref_applied. destruct x; reflexivity. Qed.
+#[export] Hint Rewrite sl_assign_applied : cow.
+Lemma sl_assign_initv g x v : initv (sl_assign g x v) = initv g. Proof. unfold sl_assign. rewrite decref_initv. destruct x; reflexivity. Qed.
+#[export] Hint Rewrite sl_assign_initv : cow.
+Lemma sl_assign_gph g x v : gph (sl_assign g x v) = gph g. Proof. unfold sl_assign. rewrite decref_gph. destruct x; reflexivity. Qed.
+#[export] Hint Rewrite sl_assign_gph : cow.
+Lemma sl_assign_glcl g x v : glcl (sl_assign g x v) = glcl g. Proof. unfold sl_assign. rewrite decref_glcl. destruct x; reflexivity. Qed.
+#[export] Hint Rewrite sl_assign_glcl : cow.
 
 (* ---------- the version heap under the helpers ---------- *)
 Lemma fupd_eq h v x : fupd h v x v = x.
@@ -221,14 +221,18 @@ Definition hasw (w : list (option nat)) : bool := (0 <? nwhl w)%nat.
 Definition opc (p : pc) : bool :=
   match p with
   | L_ldc | L_inc | L_ldr | L_call | L_rb | L_re | L_dec | X_dec | X_unlock
-  | W_lock | W_ldr | W_str | W_ldc | W_d1 | W_y1 | W_stc | W_d2 | W_y2 | W_unlock | W_ounlock | C_unlock => true
+  | W_lock | W_ldr | W_a1b | W_a1e | W_str | W_ldc | W_d1 | W_y1 | W_stc | W_d2 | W_y2 | W_a2b | W_a2e | W_unlock | W_ounlock
+  | C_unlock => true
   | _ => false
   end.
 (* ... and it owns it as long as it has a live write handle *)
 Definition owns (l : loc) : bool := opc (at_ l) || hasw (wsl l).
 (* pcs at which the thread owns the inner mutex *)
 Definition ipc (p : pc) : bool :=
-  match p with W_ldr | W_str | W_ldc | W_d1 | W_y1 | W_stc | W_d2 | W_y2 | W_unlock => true | _ => false end.
+  match p with
+  | W_ldr | W_a1b | W_a1e | W_str | W_ldc | W_d1 | W_y1 | W_stc | W_d2 | W_y2 | W_a2b | W_a2e | W_unlock => true
+  | _ => false
+  end.
 Definition hpc (p : pc) : bool :=
   match p with HW_wb | HW_we | HI_rb | HI_re | HI_wb | HI_we | HR_rb | HR_re => true | _ => false end.
 
@@ -238,7 +242,7 @@ Definition lok (l : loc) : Prop :=
   | HW_wb | HW_we | HI_rb | HI_re | HI_wb | HI_we | HR_rb | HR_re =>
       nth_error (wsl l) (sl l) = Some (Some (cv l))
   | L_lock | L_ldc | L_inc | L_ldr | L_call | L_rb | L_re | L_dec => nth_error (wsl l) (sl l) = Some None
-  | S_ldc | S_inc | S_ldr => nth_error (ssl l) (sl l) = Some None
+  | S_ldc | S_inc | S_ldr | S_rb | S_re => nth_error (ssl l) (sl l) = Some None
   | S_dec | SR_rb | SR_re => exists sn, nth_error (ssl l) (sl l) = Some (Some sn) /\ sv sn = cv l
   | _ => True
   end.
@@ -279,7 +283,7 @@ Lemma local_step t c g l g' l' es :
   (owns l' = owns l -> omtx g' = omtx g) /\
   (owns l = false -> owns l' = true -> omtx g = None).
 Proof.
-  intros Hs (Hn1 & Hn0 & Hk) Ho. destruct l as [pr p ws ss s rcn rsd v lr lc tm ed ba nd].
+  intros Hs (Hn1 & Hn0 & Hk) Ho. destruct l as [pr p ws ss xs s rcn rsd v lr lc tm ed ba nd].
   destruct p; step_cases Hs.
   all: unfold lok, owns in *.
   all: cbn in *.
@@ -300,27 +304,35 @@ Qed.
 
 (* ---------- the inner left-right protocol (technique of LRProofs.v) ---------- *)
 Definition oth (g : glob) : lrcopy := cp g (negb (rl g)).
-Definition vis_ok (g : glob) : Prop := cvid (cp g (rl g)) = committed g /\ wopen (cp g (rl g)) = false.
-Definition idle_ok (g : glob) : Prop := gph g = PA /\ cvid (oth g) = committed g /\ wopen (oth g) = false.
+Definition vis_ok (g : glob) : Prop :=
+  cvid (cp g (rl g)) = committed g /\ wopen (cp g (rl g)) = false /\ xwr (cp g (rl g)) = false.
+Definition idle_ok (g : glob) : Prop :=
+  gph g = PA /\ cvid (oth g) = committed g /\ wopen (oth g) = false /\ xwr (oth g) = false.
 
 (* what the holder of the inner mutex knows at each pc *)
 Definition wok (g : glob) (l : loc) : Prop :=
   let com := committed g in let o := oth g in
   match at_ l with
-  | W_ldr => gph g = PA /\ cvid o = com /\ wopen o = false
-  | W_str => lrl l = rl g /\ gph g = PA /\ cvid o = cv l /\ wopen o = true
-  | W_ldc => lrl l = negb (rl g) /\ gph g = PC1 /\ com = cv l /\ wopen o = false
-  | W_d1 | W_y1 => lrl l = negb (rl g) /\ gph g = PC1 /\ com = cv l /\ wopen o = false /\ cl g = lcl l
-  | W_stc => lrl l = negb (rl g) /\ gph g = PC2 /\ com = cv l /\ wopen o = false /\ cl g = lcl l /\ glcl g = lcl l
+  | W_ldr => gph g = PA /\ cvid o = com /\ wopen o = false /\ xwr o = false
+  | W_a1b => lrl l = rl g /\ gph g = PA /\ cvid o = com /\ wopen o = true /\ xwr o = false
+  | W_a1e => lrl l = rl g /\ gph g = PA /\ cvid o = com /\ wopen o = true /\ xwr o = true
+  | W_str => lrl l = rl g /\ gph g = PA /\ cvid o = cv l /\ wopen o = true /\ xwr o = false
+  | W_ldc => lrl l = negb (rl g) /\ gph g = PC1 /\ com = cv l /\ wopen o = false /\ xwr o = false
+  | W_d1 | W_y1 => lrl l = negb (rl g) /\ gph g = PC1 /\ com = cv l /\ wopen o = false /\ cl g = lcl l /\ xwr o = false
+  | W_stc =>
+      lrl l = negb (rl g) /\ gph g = PC2 /\ com = cv l /\ wopen o = false /\ cl g = lcl l /\ glcl g = lcl l /\ xwr o = false
   | W_d2 | W_y2 =>
-      lrl l = negb (rl g) /\ gph g = PC2 /\ com = cv l /\ wopen o = false /\ cl g = negb (lcl l) /\ glcl g = lcl l
-  | W_unlock => lrl l = negb (rl g) /\ gph g = PA /\ com = cv l /\ cvid o = cv l /\ wopen o = true
+      lrl l = negb (rl g) /\ gph g = PC2 /\ com = cv l /\ wopen o = false /\ cl g = negb (lcl l) /\ glcl g = lcl l /\
+      xwr o = false
+  | W_a2b => lrl l = negb (rl g) /\ gph g = PA /\ com = cv l /\ wopen o = true /\ xwr o = false
+  | W_a2e => lrl l = negb (rl g) /\ gph g = PA /\ com = cv l /\ wopen o = true /\ xwr o = true
+  | W_unlock => lrl l = negb (rl g) /\ gph g = PA /\ com = cv l /\ cvid o = cv l /\ wopen o = true /\ xwr o = false
   | _ => True
   end.
 
 (* pcs inside a reader window on copy [rside] (the inner shared handle is held) *)
 Definition rwpc (p : pc) : bool :=
-  match p with L_call | L_rb | L_re | L_dec | X_dec | S_dec => true | _ => false end.
+  match p with L_call | L_rb | L_re | L_dec | X_dec | S_rb | S_re | S_dec => true | _ => false end.
 (* pcs at which the thread is registered in counter [rcnt] *)
 Definition rgpc (p : pc) : bool :=
   match p with L_ldr | S_ldr => true | _ => rwpc p end.
@@ -343,21 +355,23 @@ Ltac usephase :=
          end; cbn in *.
 Ltac close := solve [ exact I | congruence | left; congruence | right; congruence | exfalso; congruence | lia ].
 
-Lemma wr_assign_cleft g x v : cleft (wr_assign g x v) = if x then LC v true (nrd (cleft g)) else cleft g.
-Proof. unfold wr_assign. rewrite decref_cleft. destruct x; reflexivity. Qed.
-Lemma wr_assign_cright g x v : cright (wr_assign g x v) = if x then cright g else LC v true (nrd (cright g)).
-Proof. unfold wr_assign. rewrite decref_cright. destruct x; reflexivity. Qed.
-#[export] Hint Rewrite wr_assign_cleft wr_assign_cright : cow.
+Lemma sl_assign_cleft g x v :
+  cleft (sl_assign g x v) = if x then LC v (wopen (cleft g)) (nrd (cleft g)) (xrd (cleft g)) false else cleft g.
+Proof. unfold sl_assign. rewrite decref_cleft. destruct x; reflexivity. Qed.
+Lemma sl_assign_cright g x v :
+  cright (sl_assign g x v) = if x then cright g else LC v (wopen (cright g)) (nrd (cright g)) (xrd (cright g)) false.
+Proof. unfold sl_assign. rewrite decref_cright. destruct x; reflexivity. Qed.
+#[export] Hint Rewrite sl_assign_cleft sl_assign_cright : cow.
 
 Ltac prep Hw :=
-  unfold vis_ok, idle_ok, wok, hok, oth, cp, ctr, rd_open, rd_close, wr_close in *; cbn in *;
+  unfold vis_ok, idle_ok, wok, hok, oth, cp, ctr, rd_open, rd_close, wr_open, wr_close, srd_end in *; cbn in *;
   autorewrite with cow in *; cbn in *;
   try (specialize (Hw eq_refl)); destr_and; subst.
 
 Lemma vis_step t c g l g' l' es :
   tstep t c g l = Some (g', l', es) -> (ipc (at_ l) = true -> wok g l) -> vis_ok g -> vis_ok g'.
 Proof.
-  intros Hs Hw Hv. destruct l as [pr p ws ss s rcn rsd v lr lc tm ed ba nd].
+  intros Hs Hw Hv. destruct l as [pr p ws ss xs s rcn rsd v lr lc tm ed ba nd].
   destruct p; step_cases Hs; try exact Hv; prep Hw.
   all: try (bools; splits; congruence).
 Qed.
@@ -366,7 +380,7 @@ Lemma wok_step t c g l g' l' es :
   tstep t c g l = Some (g', l', es) -> (ipc (at_ l) = true -> wok g l) ->
   (imtx g = None -> idle_ok g) -> vis_ok g -> ipc (at_ l') = true -> wok g' l'.
 Proof.
-  intros Hs Hw Hi Hv Hh. destruct l as [pr p ws ss s rcn rsd v lr lc tm ed ba nd].
+  intros Hs Hw Hi Hv Hh. destruct l as [pr p ws ss xs s rcn rsd v lr lc tm ed ba nd].
   destruct p; step_cases Hs; cbn in Hh; try discriminate; prep Hw.
   all: try (specialize (Hi eq_refl)); destr_and.
   all: try (bools; splits; close).
@@ -377,7 +391,7 @@ Lemma idle_step t c g l g' l' es :
   (ipc (at_ l) = true -> imtx g = Some t) ->
   (imtx g = None -> idle_ok g) -> imtx g' = None -> idle_ok g'.
 Proof.
-  intros Hs Hw Hm Hi Hn. destruct l as [pr p ws ss s rcn rsd v lr lc tm ed ba nd].
+  intros Hs Hw Hm Hi Hn. destruct l as [pr p ws ss xs s rcn rsd v lr lc tm ed ba nd].
   destruct p; step_cases Hs; cbn in Hn, Hm; autorewrite with cow in Hn; try discriminate;
     try (specialize (Hm eq_refl); congruence); prep Hw.
   all: try (specialize (Hi Hn)); destr_and.
@@ -389,7 +403,7 @@ Lemma hok_step t c g l g' l' es (r : loc) :
   tstep t c g l = Some (g', l', es) -> (ipc (at_ l) = true -> wok g l) -> vis_ok g ->
   hok g r -> (forall k, ctr g k = 0 -> rcnt r <> k) -> hok g' r.
 Proof.
-  intros Hs Hw Hv Hh Hz. destruct l as [pr p ws ss s rcn rsd v lr lc tm ed ba nd].
+  intros Hs Hw Hv Hh Hz. destruct l as [pr p ws ss xs s rcn rsd v lr lc tm ed ba nd].
   destruct p; step_cases Hs; try exact Hh; prep Hw; usephase.
   all: try (bools; splits; close).
   all: match goal with H : (_ =? 0) = true |- _ => apply Z.eqb_eq in H; rename H into Hc end.
@@ -401,13 +415,13 @@ Qed.
 (* a thread that does not hold the inner mutex changes nothing the writer or a reader window depends on *)
 Definition same_w (g g' : glob) : Prop :=
   rl g' = rl g /\ cl g' = cl g /\ gph g' = gph g /\ glcl g' = glcl g /\ committed g' = committed g /\
-  forall x, cvid (cp g' x) = cvid (cp g x) /\ wopen (cp g' x) = wopen (cp g x).
+  forall x, cvid (cp g' x) = cvid (cp g x) /\ wopen (cp g' x) = wopen (cp g x) /\ xwr (cp g' x) = xwr (cp g x).
 
 Lemma nonholder_same t c g l g' l' es :
   tstep t c g l = Some (g', l', es) -> ipc (at_ l) = false -> same_w g g'.
 Proof.
-  intros Hs Hh. destruct l as [pr p ws ss s rcn rsd v lr lc tm ed ba nd].
-  destruct p; step_cases Hs; cbn in Hh; try discriminate; unfold same_w, cp, rd_open, rd_close, cp; cbn;
+  intros Hs Hh. destruct l as [pr p ws ss xs s rcn rsd v lr lc tm ed ba nd].
+  destruct p; step_cases Hs; cbn in Hh; try discriminate; unfold same_w, cp, rd_open, rd_close, srd_end, cp; cbn;
     autorewrite with cow; splits; try reflexivity.
   all: intros x; destruct x; bools; auto.
 Qed.
@@ -415,7 +429,7 @@ Qed.
 Lemma wok_same g g' l : same_w g g' -> wok g l -> wok g' l.
 Proof.
   intros (E1 & E2 & E3 & E4 & E5 & E6). unfold wok, oth. rewrite E1, E2, E3, E4, E5.
-  destruct (E6 (negb (rl g))) as [-> ->]. auto.
+  destruct (E6 (negb (rl g))) as (-> & -> & ->). auto.
 Qed.
 Lemma hok_same g g' r : same_w g g' -> hok g r -> hok g' r.
 Proof. intros (E1 & E2 & E3 & E4 & E5 & E6). unfold hok. rewrite E1, E3, E4. auto. Qed.
@@ -427,7 +441,7 @@ Lemma imtx_step t c g l g' l' es :
   (ipc (at_ l') = ipc (at_ l) -> imtx g' = imtx g) /\
   (ipc (at_ l) = false -> ipc (at_ l') = true -> imtx g = None).
 Proof.
-  intros Hs Hm. destruct l as [pr p ws ss s rcn rsd v lr lc tm ed ba nd].
+  intros Hs Hm. destruct l as [pr p ws ss xs s rcn rsd v lr lc tm ed ba nd].
   destruct p; step_cases Hs; cbn in *; autorewrite with cow; splits; intros; try discriminate; try reflexivity; auto.
 Qed.
 
@@ -439,8 +453,8 @@ Proof. destruct p; cbn; congruence. Qed.
 Lemma hok_new t c g l g' l' es :
   tstep t c g l = Some (g', l', es) -> rwpc (at_ l) = false -> rwpc (at_ l') = true -> hok g' l'.
 Proof.
-  intros Hs H0 H1. destruct l as [pr p ws ss s rcn rsd v lr lc tm ed ba nd].
-  destruct p; step_cases Hs; cbn in *; try discriminate; unfold hok, rd_open; cbn; autorewrite with cow; cbn.
+  intros Hs H0 H1. destruct l as [pr p ws ss xs s rcn rsd v lr lc tm ed ba nd].
+  destruct p; step_cases Hs; cbn in *; try discriminate; unfold hok, rd_open, srd_end; cbn; autorewrite with cow; cbn.
   all: destruct (gph g); auto.
 Qed.
 (* inside a window the thread does not change the phase, its side or its counter *)
@@ -450,7 +464,7 @@ Lemma hok_own t c g l g' l' es :
 Proof.
   intros Hs H0 H1. assert (Hi : ipc (at_ l) = false) by (destruct (at_ l); cbn in *; congruence).
   split; [eapply nonholder_same; eauto|].
-  destruct l as [pr p ws ss s rcn rsd v lr lc tm ed ba nd].
+  destruct l as [pr p ws ss xs s rcn rsd v lr lc tm ed ba nd].
   destruct p; step_cases Hs; cbn in *; try discriminate; auto.
 Qed.
 
@@ -459,8 +473,8 @@ Lemma reg_step t c g l g' l' es k :
   tstep t c g l = Some (g', l', es) ->
   ctr g' k + Z.of_nat (reg k l) = ctr g k + Z.of_nat (reg k l').
 Proof.
-  intros Hs. destruct l as [pr p ws ss s rcn rsd v lr lc tm ed ba nd].
-  destruct p; step_cases Hs; unfold reg, ctr, rd_open, rd_close, cp in *; cbn in *; autorewrite with cow; cbn; try lia.
+  intros Hs. destruct l as [pr p ws ss xs s rcn rsd v lr lc tm ed ba nd].
+  destruct p; step_cases Hs; unfold reg, ctr, rd_open, rd_close, wr_open, srd_end, cp in *; cbn in *; autorewrite with cow; cbn; try lia.
   all: try (destruct rcn, k; cbn; lia).
   all: try (bools; lia).
 Qed.
@@ -469,7 +483,7 @@ Lemma rdo_step t c g l g' l' es x :
   tstep t c g l = Some (g', l', es) ->
   nrd (cp g' x) + Z.of_nat (rdo x l) = nrd (cp g x) + Z.of_nat (rdo x l').
 Proof.
-  intros Hs. destruct l as [pr p ws ss s rcn rsd v lr lc tm ed ba nd].
-  destruct p; step_cases Hs; unfold rdo, ctr, rd_open, rd_close, wr_close, cp in *; cbn in *; autorewrite with cow; cbn; try lia.
+  intros Hs. destruct l as [pr p ws ss xs s rcn rsd v lr lc tm ed ba nd].
+  destruct p; step_cases Hs; unfold rdo, ctr, rd_open, rd_close, wr_open, wr_close, srd_end, cp in *; cbn in *; autorewrite with cow; cbn; try lia.
   all: try (destruct x; bools; lia).
 Qed.
